@@ -72,7 +72,7 @@ def run(ctx):
         consts[cfg] = dict(states=mc["states"], transitions=mc["transitions"], depth=mc["depth"], scenarios=mc["emitted"])
     chosen = regression() + scs
     s, nlines = drive_and_judge(ctx, chosen, sweep=6 if quick else 100, par=160 if quick else 3000,
-                                parvariants=3 if quick else 4, variants="rotate" if quick else "all")
+                                parvariants=3 if quick else 4, variants="all")
     ctx.cov.update(dict(
         states=states, transitions=trans, traces_validated_against_impl=s["runs"],
         samples=s["samples"][:2], model_runs=consts, scenarios_emitted=emitted, scenarios_replayed=s["scenarios"],
